@@ -309,20 +309,35 @@ func c11Pool(w *W) {
 		})
 	}
 	raceStop := w.faulty() && simrt.Choose(2) == 1
+	// the pool is ended either through the service (Close: context cancelled,
+	// Shutdown closes the queue) or by closing the work queue itself (drain and
+	// stop: the context stays live, so every job whose Add returned nil was
+	// accepted "while the pool keeps running" and must run, race or not)
+	drain := simrt.Choose(3) == 0
+	end := func() {
+		if drain {
+			_ = q.Close()
+		} else {
+			s.Close()
+		}
+	}
 	var stopAt int64
 	if raceStop {
 		at := simrt.Choose(120)
 		simrt.Spawn("fault:close", func() {
 			simrt.WaitStep(simrt.Stamp() + at)
 			stopAt = h.Tick()
-			s.Close()
+			end()
 		})
 		w.Fault("close")
+		if drain {
+			w.Fault("queue-close-racing-adds")
+		}
 	}
 	simrt.Quiesce()
 	if stopAt == 0 {
 		stopAt = h.Tick()
-		s.Close()
+		end()
 		w.Fault("close-at-quiescence")
 	}
 	var waitErr error
@@ -336,7 +351,7 @@ func c11Pool(w *W) {
 	if handler {
 		name = "HandlerWorkerPool"
 	}
-	w.Config("%s workers=%d jobs=%d limited=%v raceStop=%v", name, workers, nJobs, limited, raceStop)
+	w.Config("%s workers=%d jobs=%d limited=%v raceStop=%v drain=%v", name, workers, nJobs, limited, raceStop, drain)
 	w.State(fmt.Sprintf("%s w=%d rs=%v", name, workers, raceStop))
 	for _, j := range jobs {
 		w.hist = append(w.hist, fmt.Sprintf("job%d %s/%s accepted=%v@%d runs=%d", j.id, poNames[j.outcome], j.flav, j.accepted, j.addedAt, j.runs))
@@ -359,6 +374,9 @@ func c11Pool(w *W) {
 		// "exactly once when it is accepted while the pool keeps running": judged
 		// when the pool was only stopped at quiescence; a Close racing the
 		// submission may legitimately leave an accepted job unrun (at most once).
+		if drain && j.runs != 1 {
+			w.Violate("job-lost", "job-lost:"+name+":queue-closed", "%s: job %d was accepted (Add returned nil at %d) and the pool was ended by closing its queue at %d, its context still live, but the job ran %d times", name, j.id, j.addedAt, stopAt, j.runs)
+		}
 		if !raceStop && j.addedAt < stopAt && j.runs != 1 {
 			w.Violate("job-lost", "job-lost:"+name, "%s: job %d was accepted at %d while the pool kept running (stopped at %d) but ran %d times", name, j.id, j.addedAt, stopAt, j.runs)
 		}
